@@ -177,6 +177,83 @@ def truth_table(f, atoms=None, classify=None, max_atoms=10, effects=None):
     return atoms, table
 
 
+def ev3(n, env):
+    """three-valued ev: atoms missing from env are unknown (None)"""
+    n0, neg = peel(n)
+    k = n0["k"]
+    if k == "BinaryOperator" and n0.get("op") in ("&&", "||"):
+        a, b = ev3(n0["c"][0], env), ev3(n0["c"][1], env)
+        if n0["op"] == "&&":
+            v = False if (a is False or b is False) else (True if (a is True and b is True) else None)
+        else:
+            v = True if (a is True or b is True) else (False if (a is False and b is False) else None)
+    elif k == "ConditionalOperator":
+        c = ev3(n0["c"][0], env)
+        if c is None:
+            x, y = ev3(n0["c"][1], env), ev3(n0["c"][2], env)
+            v = x if x == y else None
+        else:
+            v = ev3(n0["c"][1], env) if c else ev3(n0["c"][2], env)
+    elif k in ("CXXBoolLiteralExpr", "IntegerLiteral"):
+        v = bool(n0.get("v"))
+    else:
+        key, pol = atom_key(n0)
+        if key not in env:
+            v = None
+        else:
+            v = env[key] if pol else not env[key]
+    if v is None:
+        return None
+    return (not v) if neg else v
+
+
+def reach_table(f, target, is_role_atom, max_atoms=8):
+    """(atoms, {assignment: bool}): for every assignment of the branch-condition atoms selected by is_role_atom(key), can
+    the CFG position `target` be reached from the entry when every OTHER condition may go either way?  However the
+    control flow is spelled (nested ifs, early returns, inverted tests, named bool locals), the table is the same."""
+    g = cfg.FnCFG(f)
+    loc = bool_locals(f)
+    conds = {}
+    atoms = []
+    for b in g.blocks.values():
+        if len(b["s"]) == 2 and b.get("cond") is not None and b.get("termk") != "SwitchStmt":
+            c = g.idx.get(b["cond"])
+            if c is not None:
+                e = expand(f, c, loc)
+                conds[b["id"]] = e
+                ls = []
+                leaves(e, ls)
+                for a in ls:
+                    if is_role_atom(a) and a not in atoms:
+                        atoms.append(a)
+    if len(atoms) > max_atoms:
+        raise facts.AnalysisBroken("%s: %d relevant conditions, too many for a table" % (f["id"], len(atoms)))
+    table = {}
+    for vals in itertools.product((False, True), repeat=len(atoms)):
+        env = dict(zip(atoms, vals))
+        seen, stack, hit = set(), [g.entry], False
+        while stack:
+            b = stack.pop()
+            if b in seen:
+                continue
+            seen.add(b)
+            if b == target[0]:
+                hit = True
+                break
+            blk = g.blocks[b]
+            if b in g.throws:
+                continue
+            ss = blk["s"]
+            if b in conds and len(ss) == 2:
+                v = ev3(conds[b], env)
+                nxt = [ss[0]] if v is True else ([ss[1]] if v is False else list(ss))
+            else:
+                nxt = list(ss)
+            stack.extend(x for x in nxt if x is not None)
+        table[vals] = hit
+    return atoms, table
+
+
 def bool_locals(f):
     """single-assignment bool locals -> initialiser"""
     from . import bits
